@@ -527,3 +527,33 @@ def check(cx):
                 body = ws[2:].strip() if ws.startswith("u8") else ws
                 cx.verdict(body == rs, r7, "Response::" + v, gt.where(), "both sides: <%s>" % body,
                            "Response::%s is written as <%s> but read as <%s>" % (v, body, rs))
+
+    # ---- C20.8 the version byte is compared for equality ----------------------------------------------------------------
+    r8 = cx.rule("C20.8", "TAB: both decoders test the version byte against PROTOCOL_VERSION for (in)equality - an ordering test "
+                 "(`version > PROTOCOL_VERSION`) lets foreign version bytes through as valid frames - and the mismatch builds VersionMismatch", floor=2)
+    for adt in (REQ, RESP):
+        f = cx.guard(r8, adt + "::from_bytes", p.fn, adt + "::from_bytes")
+        if not f:
+            continue
+
+        def is_version(o, f=f, depth=0):
+            k = op_const(o) or {}
+            if k:
+                return str(k.get("cdef", "")).endswith("PROTOCOL_VERSION")
+            l = op_local(o)
+            if l is None or depth > 3:
+                return False
+            defs = [st for b_ in f.blocks for st in b_["stmts"] if st["dst"] == [l]]
+            return len(defs) == 1 and defs[0]["rv"].get("r") in ("use", "cast") and is_version(defs[0]["rv"]["o"][0], f, depth + 1)
+        cmps = [st for b_ in f.blocks for st in b_["stmts"] if st["rv"].get("r") == "bin" and st["rv"]["op"] in ("Eq", "Ne", "Lt", "Le", "Gt", "Ge")
+                and any(is_version(o) for o in st["rv"]["o"])]
+        ver = core.const_value(p, {"cdef": "tcp::PROTOCOL_VERSION"})
+        sw = [t for _, t in int_switches(f, "u8") if ver is not None and len(t["targets"]) == 1 and str(t["targets"][0][0]) == str(ver)] if not cmps else []
+        mism = [s_ for _, s_ in core.region_aggregates(f, range(len(f.blocks))) if s_["rv"].get("variant") == "VersionMismatch"]
+        ordering = sorted({st["rv"]["op"] for st in cmps if st["rv"]["op"] not in ("Eq", "Ne")})
+        nm = adt.rsplit("::", 1)[-1]
+        cx.verdict((bool(cmps) or bool(sw)) and not ordering and bool(mism), r8, nm + ":version-equality", f.where(),
+                   "version %s PROTOCOL_VERSION, mismatch -> VersionMismatch" % ("/".join(sorted({st["rv"]["op"] for st in cmps})) or "matched against"),
+                   "%s::from_bytes %s: frames with a foreign version byte are decoded as valid messages" % (
+                       nm, ("compares the version byte with PROTOCOL_VERSION by %s" % ordering) if ordering else
+                       ("does not compare the version byte with PROTOCOL_VERSION" if not (cmps or sw) else "never builds VersionMismatch")))
